@@ -857,7 +857,7 @@ func cmdValues(args []string) {
 	for li, leaf := range systematicLeaves() {
 		for pi, v := range positions(leaf) {
 			// a deterministic slice of them also goes through the Coq printer model / reader
-			check(v, li%89 == 0 && (pi == 1 || pi == 5))
+			check(v, li%181 == 0 && (pi == 1 || pi == 5))
 			nsys++
 		}
 	}
